@@ -13,8 +13,10 @@ RULE = ("histories = prior directory state x injected fault x (clean start | sec
         "phrases with poisoned values, meta claiming an old hash or another version); meta.json missing / empty / truncated at several bytes / "
         "not JSON / JSON of the wrong shape; index directory missing / empty / without tantivy's meta.json / with a garbage one; plus every "
         "state a crash leaves behind. Faults: process abort at each named cfg(anything_verif) crash point (the CRASHPOINT marker and SIGABRT "
-        "are checked; an unreached point is recorded as such and the run counts as a clean start); thorough: kill -9 injected by strace at the "
-        "N-th openat/write/rename/fsync/unlink/mkdir. After EVERY process exit an independent tantivy reader checks the invariant `meta.json "
+        "are checked; an unreached point is recorded as such and the run counts as a clean start), and kill -9 injected by strace at EVERY "
+        "openat/write/rename/fdatasync/unlink/mkdir call of a rebuild (counted per thread on a traced clean start; quick: from three prior states, thorough: from all, plus double kills); an injected I/O error (ENOSPC, EIO, "
+        "EACCES) at every write/fdatasync/rename/openat/mkdir/unlink call instead of a crash (release build, where the shipped data is embedded); two instances "
+        "started at once (the second while the first holds the writer lock; the first finishes or is killed). After EVERY process exit an independent tantivy reader checks the invariant `meta.json "
         "names this version and data hash => the index holds exactly the shipped payloads`; after every clean start the probe answers must "
         "equal those of a fresh in-memory database and meta.json must be current. non-trivial = distinct history (state, faults)")
 
@@ -232,6 +234,27 @@ def shard(p):
                 for fault in h["faults"]:
                     prefix = None
                     crash = fault
+                    if fault.startswith("concurrent"):
+                        concurrent_start(acc, ctx, home, h, kill_first=fault.endswith("kill"))
+                        if prior_ok:
+                            check_invariant(acc, ctx, insp, home, h, "fault " + fault)
+                        continue
+                    if fault.startswith("errinj:"):
+                        # an I/O error instead of a crash: the N-th call of one kind fails (disk full, I/O error, no permission).
+                        # The start may fail or fall back - whatever it does, it must not record the index as current unless it is
+                        _, call, err, n = fault.split(":")
+                        # (release build: there the shipped data is embedded in the binary; a debug build reads it from the source
+                        #  tree at run time, and an error injected into THAT read is not a state of the data directory)
+                        r = run_driver(ctx["bin_rel"], home, [{"op": "db", "mode": "disk"}],
+                                       prefix=["strace", "-f", "-o", "/dev/null", "-e", "trace=" + call, "-e", "inject=%s:error=%s:when=%s" % (call, err, n)])
+                        if r["status"] != "exit":
+                            acc.inconc("start with an injected error timed out: %s %s" % (hist_str(h), fault))
+                            continue
+                        opened = bool(r["replies"]) and "ok" in r["replies"][0]
+                        acc.count("errinj:%s:%s:%s" % (call, err, "start-succeeded" if opened else "start-reported-an-error"))
+                        if prior_ok:
+                            check_invariant(acc, ctx, insp, home, h, "fault " + fault)
+                        continue
                     if fault.startswith("strace:"):
                         _, call, n = fault.split(":")
                         prefix = ["strace", "-f", "-o", "/dev/null", "-e", "trace=" + call, "-e", "inject=%s:signal=KILL:when=%s" % (call, n)]
@@ -260,6 +283,82 @@ def shard(p):
     finally:
         insp.close()
     return acc
+
+SYSCALLS = ["openat", "write", "renameat", "rename", "renameat2", "fdatasync", "fsync", "unlink", "unlinkat", "mkdir", "mkdirat", "ftruncate"]
+
+def syscall_counts(ctx, state, binkey="bin"):
+    """How many calls of each kind one uninterrupted start makes from the given prior state (traced once per run): the kill sweep
+    then covers EVERY one of them - each is a boundary between two durable effects of the rebuild."""
+    home = tempfile.mkdtemp(prefix="c15-trace-")
+    out = os.path.join(home, "trace.txt")
+    try:
+        with Driver(ctx["bin"]) as insp:
+            states(ctx)[state](ctx, home, insp)
+        r = run_driver(ctx[binkey], home, [{"op": "db", "mode": "disk"}], prefix=["strace", "-f", "-o", out, "-e", "trace=" + ",".join(SYSCALLS)])
+        # strace counts `when=N` per traced thread: the sweep runs N up to the largest per-thread count of each call
+        per = collections.Counter()
+        for line in open(out, errors="replace"):
+            parts = line.split(None, 2)
+            if len(parts) >= 2:
+                name = parts[1].split("(", 1)[0]
+                if name in SYSCALLS:
+                    per[(parts[0], name)] += 1
+        counts = {}
+        for (tid, name), n in per.items():
+            counts[name] = max(counts.get(name, 0), n)
+        return counts if r.get("status") == "exit" and r.get("code") == 0 else {}
+    finally:
+        shutil.rmtree(home, ignore_errors=True)
+
+def concurrent_start(acc, ctx, home, h, kill_first):
+    """Two instances at once: A rebuilds slowly (producer-side delay hook) and holds the index writer lock, B starts meanwhile
+    (and may fail or fall back); then A finishes, or is killed. Only the invariant and the later clean start are judged."""
+    env = dict(os.environ, XDG_DATA_HOME=home, ANYTHING_VERIF_DELAY="7:3000:1000")
+    env.pop("ANYTHING_VERIF_CRASH", None)
+    a = subprocess.Popen([ctx["bin"]], stdin=subprocess.PIPE, stdout=subprocess.PIPE, stderr=subprocess.DEVNULL, env=env)
+    try:
+        a.stdin.write((json.dumps({"op": "db", "mode": "disk"}) + "\n").encode())
+        a.stdin.flush()
+        lock = os.path.join(home, "facts", "index", ".tantivy-writer.lock")
+        t_end = time.time() + 10
+        def is_held():
+            import fcntl
+            try:
+                fd = os.open(lock, os.O_RDWR)
+            except OSError:
+                return False
+            try:
+                fcntl.flock(fd, fcntl.LOCK_EX | fcntl.LOCK_NB)
+                fcntl.flock(fd, fcntl.LOCK_UN)
+                return False
+            except OSError:
+                return True
+            finally:
+                os.close(fd)
+        held = False
+        while time.time() < t_end and a.poll() is None:
+            held = is_held()
+            if held:
+                break
+            time.sleep(0.003)
+        time.sleep(0.02)
+        r = run_driver(ctx["bin"], home, [{"op": "db", "mode": "disk"}])
+        opened = r.get("status") == "exit" and bool(r.get("replies")) and "ok" in r["replies"][0]
+        acc.count("concurrent:%s:second-instance-%s" % ("writer-lock-held-by-first" if held else "first-never-took-the-writer-lock", "opened" if opened else "reported-an-error"))
+        if kill_first:
+            a.kill()
+        else:
+            try:
+                a.stdin.close()
+            except Exception:
+                pass
+        a.wait(timeout=120)
+    except Exception as ex:
+        acc.inconc("concurrent start: %r" % (ex,))
+    finally:
+        if a.poll() is None:
+            a.kill()
+            a.wait()
 
 def prepare(binp):
     """Reference answers, probe phrases, the identity of a current meta.json, the expected payload digest."""
@@ -294,6 +393,7 @@ def run(tier, seed):
     t0 = time.time()
     binp = build.build("dbg")["vdriver"]
     ctx = prepare(binp)
+    ctx["bin_rel"] = build.build("rel")["vdriver"]
     rng = rng_for(seed, PID)
     try:
         snames = list(states(ctx))
@@ -302,8 +402,28 @@ def run(tier, seed):
             hs.append({"state": s, "faults": [], "second_clean": True})
             for c in CRASHPOINTS:
                 hs.append({"state": s, "faults": [c]})
-        n_double = 1600 if tier == "quick" else 0
+        n_double = 700 if tier == "quick" else 0
         doubles = [{"state": s, "faults": [c1, c2]} for s in snames for c1 in CRASHPOINTS for c2 in CRASHPOINTS]
+        sweep_states = ["absent", "other-data-same-size-old-hash", "index-missing"] if tier == "quick" else snames
+        sweep_counts = {}
+        for s in sweep_states:
+            sweep_counts[s] = syscall_counts(ctx, s)
+            for call, cnt in sorted(sweep_counts[s].items()):
+                for n in range(1, cnt + 2):       # + 1: one past the last call must survive (shows that the sweep reached the end)
+                    hs.append({"state": s, "faults": ["strace:%s:%d" % (call, n)]})
+        # I/O errors instead of crashes (strace error injection) and two instances at once
+        err_states = ["absent", "other-data-same-size-old-hash", "other-version", "index-missing"] if tier == "quick" else snames
+        for s in err_states:
+            c = syscall_counts(ctx, s, "bin_rel")
+            for call, errs in (("write", ["ENOSPC"]), ("fdatasync", ["EIO"]), ("renameat", ["ENOSPC"]), ("openat", ["ENOSPC", "EACCES"]), ("mkdir", ["ENOSPC"]), ("unlink", ["EACCES"])):
+                for n in range(1, c.get(call, 0) + 1):
+                    if tier == "quick" and call in ("write", "openat") and n % 2 == (h64(s) % 2):
+                        continue
+                    for e in errs:
+                        hs.append({"state": s, "faults": ["errinj:%s:%s:%d" % (call, e, n)], "second_clean": True})
+        for s in snames:
+            hs.append({"state": s, "faults": ["concurrent"]})
+            hs.append({"state": s, "faults": ["concurrent-kill"]})
         if tier == "quick":
             rng.shuffle(doubles)
             hs += doubles[:n_double]
@@ -312,12 +432,17 @@ def run(tier, seed):
             # triple faults, sampled
             for _ in range(1500):
                 hs.append({"state": rng.choice(snames), "faults": [rng.choice(CRASHPOINTS) for _ in range(3)], "second_clean": True})
-            # syscall-level kills
-            for call, upto in (("openat", 260), ("write", 400), ("rename", 40), ("renameat", 20), ("fsync", 60), ("fdatasync", 40), ("unlink", 60), ("mkdir", 12), ("ftruncate", 30)):
-                for n in range(1, upto + 1):
-                    for s in ("absent", "valid-current", "other-data-old-hash", "index-missing", "meta-missing"):
-                        if n % 3 == (hash(s) % 3) or n <= 20:
-                            hs.append({"state": s, "faults": ["strace:%s:%d" % (call, n)]})
+            # two syscall-level kills in a row (the second start is a recovery that gets killed as well)
+            for _ in range(3000):
+                s = rng.choice(snames)
+                c = sweep_counts.get(s) or {}
+                if not c:
+                    continue
+                f = []
+                for _k in range(2):
+                    call = rng.choice(sorted(c))
+                    f.append("strace:%s:%d" % (call, rng.randint(1, c[call])))
+                hs.append({"state": s, "faults": f})
         rng.shuffle(hs)
         payloads = [{"ctx": ctx, "histories": hs[i::NCPU * 4]} for i in range(NCPU * 4) if hs[i::NCPU * 4]]
         acc = run_shards(shard, payloads)
@@ -328,7 +453,7 @@ def run(tier, seed):
                   assumptions=["process aborts / SIGKILL model crashes (page cache survives); power loss with unsynced data is out of reach of this harness",
                                "`this version and data hash` is what a clean build of the current tree writes into meta.json",
                                "the state `foreign index + meta claiming the CURRENT hash` is not generated: no run can produce it and the tool cannot detect it"],
-                  extra={"crash_points": CRASHPOINTS, "crash_points_fired": fired, "prior_states": list(states(ctx)) if False else None, "probe_phrases": len(ctx["probes"])},
+                  extra={"syscall_kill_sweep": {s: c for s, c in sweep_counts.items()}, "crash_points": CRASHPOINTS, "crash_points_fired": fired, "prior_states": list(states(ctx)) if False else None, "probe_phrases": len(ctx["probes"])},
                   min_eval=50)
 
 def replay(path):
@@ -336,6 +461,7 @@ def replay(path):
     c = v["case"]
     binp = build.build("dbg")["vdriver"]
     ctx = prepare(binp)
+    ctx["bin_rel"] = build.build("rel")["vdriver"]
     try:
         a = shard({"ctx": ctx, "histories": [c["history"]]})
         print(json.dumps({"history": c["history"], "violations_now": [x["what"] for x in a.violations]}, ensure_ascii=False))
